@@ -512,7 +512,7 @@ func (w *dbWorld) genOp(r *rand.Rand, sh *shadow, profile string) dbOp {
 		if r.Intn(3) == 0 {
 			op.sok = false
 		}
-		if r.Intn(12) == 0 {
+		if r.Intn(40) == 0 {
 			op.aok = 0
 		}
 	}
@@ -601,6 +601,9 @@ func traceDB(o opts) error {
 			}
 			sh.update(op, res)
 			mem := memState(w.d, w.sk)
+			if op.aok == 0 {
+				mem = "UNOBS" // the audit writer is dead from here on (see below); List cannot be called
+			}
 			disk, err := readDisk(w.path, kek)
 			if err != nil {
 				disk = "ERR:" + hx(err.Error())
@@ -611,6 +614,13 @@ func traceDB(o opts) error {
 				line += "\t" + w.reopenObs(kek)
 			}
 			emit("%s", line)
+			if op.aok == 0 {
+				// encoding/json's Encoder keeps a write error forever: after one failed
+				// Write the audit.Writer rejects every later record without calling the
+				// sink again (the server stays fail-closed until restarted).  A Write
+				// failure therefore ends the history; Sync failures are transient.
+				break
+			}
 		}
 		w.close()
 	}
